@@ -270,7 +270,12 @@ def run(ctx, host=None):
             chk.bad(R1c, cl.qualname, nd, f'Container.close() no longer calls {nd}: the SQLite file descriptors of that session stay open', where=f'{cl.module.relpath}:{cl.lineno}')
     # close() always does its work: no early return, the operation session is closed at the top level of the body, and the container session under nothing
     # but its own None test (a "already closed" flag makes the second close of a re-used handle a no-op and leaks what was opened in between)
-    early = [n for n in walk_local(cl.node) if isinstance(n, ast.Return)]
+    def _nothing_to_close(r):
+        # `if self._x_session is None: return` -- a guard clause that returns because there is nothing (left) to close
+        par = getattr(r, '_parent', None)
+        return isinstance(par, ast.If) and par.body == [r] and not par.orelse and norm(par.test).endswith('_session is None') and r is cl.node.body[-1 if False else cl.node.body.index(par)].body[0] \
+            and all(not (isinstance(x, ast.Call) and 'close' in norm(x.func)) for later in cl.node.body[cl.node.body.index(par) + 1:] for x in ast.walk(later) if '_operation_session' in norm(x))
+    early = [n for n in walk_local(cl.node) if isinstance(n, ast.Return) and not (getattr(n, '_parent', None) in cl.node.body and _nothing_to_close(n))]
     top_close = any(isinstance(st, ast.Expr) and isinstance(st.value, ast.Call) and norm(st.value.func) == 'self._close_operation_session' for st in cl.node.body)
     guards = []
     for n in walk_local(cl.node):
